@@ -370,6 +370,190 @@ impl Space for PrintCases {
     }
 }
 
+// ------------------------------------------------------------------
+// target histories: the print target is an object with a history (configure, re-configure, solve, re-solve,
+// verbose toggled between solves); every sequence of operations up to a length, against a plain model
+// ------------------------------------------------------------------
+
+#[derive(Clone, Copy, Debug, PartialEq)]
+enum TOp {
+    Buffer,
+    Stream,
+    File,
+    Sink,
+    ToggleVerbose,
+    Solve,
+}
+const TOPS: [TOp; 6] = [TOp::Solve, TOp::Buffer, TOp::Stream, TOp::File, TOp::ToggleVerbose, TOp::Sink];
+
+enum Cur {
+    Sink,
+    Buffer(Vec<u8>),
+    Stream(usize),
+    File(usize),
+}
+
+pub struct TargetHistories {
+    pub p: Prob,
+    pub ss: SettingsSpec,
+    pub len: u32,
+    pub label: String,
+}
+
+fn temp_file() -> (std::fs::File, std::fs::File) {
+    static N: std::sync::atomic::AtomicU64 = std::sync::atomic::AtomicU64::new(0);
+    let k = N.fetch_add(1, std::sync::atomic::Ordering::Relaxed);
+    let path = std::env::temp_dir().join(format!("clmc-c20h-{}-{}.txt", std::process::id(), k));
+    let f = std::fs::OpenOptions::new().read(true).write(true).create(true).truncate(true).open(&path).unwrap();
+    let rd = f.try_clone().unwrap();
+    let _ = std::fs::remove_file(&path);
+    (f, rd)
+}
+
+impl TargetHistories {
+    fn ops(&self, id: u64) -> Vec<TOp> {
+        let mut d = Digits(id);
+        (0..self.len).map(|_| *d.pick(&TOPS)).collect()
+    }
+    /// reference: the log and result of the k-th solve (k = 1, 2, ...) of one solver object, each solve
+    /// captured by a stream configured immediately before it
+    fn reference(&self, nsolves: usize) -> Result<Vec<(Vec<u8>, SolverStatus, u64, u32)>, String> {
+        guarded(|| {
+            let mut st = self.ss.build();
+            st.verbose = true;
+            let mut solver = self.p.build(st);
+            let mut out = vec![];
+            for _ in 0..nsolves {
+                let shared = Arc::new(Mutex::new(Vec::new()));
+                solver.print_to_stream(Box::new(SharedWriter(shared.clone(), 0)));
+                solver.solve();
+                let b = shared.lock().unwrap().clone();
+                out.push((b, solver.solution.status, solver.solution.obj_val.to_bits(), solver.solution.iterations));
+            }
+            out
+        })
+    }
+}
+
+impl Space for TargetHistories {
+    fn name(&self) -> String {
+        format!("target-histories-len{}-{}", self.len, self.label)
+    }
+    fn size(&self) -> u64 {
+        (TOPS.len() as u64).pow(self.len)
+    }
+    fn describe(&self, id: u64) -> Value {
+        json!({"problem": self.p.to_json(), "settings": self.ss.to_json(), "initial": "verbose on, print_to_sink", "ops": self.ops(id).iter().map(|o| format!("{:?}", o)).collect::<Vec<_>>()})
+    }
+    fn bound(&self) -> Value {
+        json!({"alphabet": TOPS.iter().map(|o| format!("{:?}", o)).collect::<Vec<_>>(), "length": self.len, "checked": "after every operation"})
+    }
+    fn run(&self, id: u64, ctx: &mut Ctx) -> CaseResult {
+        let ops = self.ops(id);
+        let nsolves = ops.iter().filter(|o| **o == TOp::Solve).count();
+        let refs = self.reference(nsolves).map_err(|e| Violation::new("panic-in-reference-re-solves", e))?;
+        for (b, ..) in &refs {
+            ensure!(!b.is_empty(), "no-output-with-verbose-on", "reference stream received nothing");
+        }
+        let mut st = self.ss.build();
+        st.verbose = true;
+        let mut verbose = true;
+        let res = guarded(|| -> CaseResult {
+            let mut solver = self.p.build(st);
+            solver.print_to_sink();
+            let mut cur = Cur::Sink;
+            let mut streams: Vec<(Arc<Mutex<Vec<u8>>>, Vec<u8>)> = vec![];
+            let mut files: Vec<(std::fs::File, Vec<u8>)> = vec![];
+            let mut k = 0usize;
+            for (i, op) in ops.iter().enumerate() {
+                match op {
+                    TOp::Buffer => {
+                        solver.print_to_buffer();
+                        cur = Cur::Buffer(vec![]);
+                    }
+                    TOp::Stream => {
+                        let shared = Arc::new(Mutex::new(Vec::new()));
+                        solver.print_to_stream(Box::new(SharedWriter(shared.clone(), 0)));
+                        streams.push((shared, vec![]));
+                        cur = Cur::Stream(streams.len() - 1);
+                    }
+                    TOp::File => {
+                        let (f, rd) = temp_file();
+                        solver.print_to_file(f);
+                        files.push((rd, vec![]));
+                        cur = Cur::File(files.len() - 1);
+                    }
+                    TOp::Sink => {
+                        solver.print_to_sink();
+                        cur = Cur::Sink;
+                    }
+                    TOp::ToggleVerbose => {
+                        verbose = !verbose;
+                        solver.settings.verbose = verbose;
+                    }
+                    TOp::Solve => {
+                        solver.solve();
+                        let (log, status, obj, iters) = &refs[k];
+                        k += 1;
+                        ensure!(
+                            solver.solution.status == *status && solver.solution.obj_val.to_bits() == *obj && solver.solution.iterations == *iters,
+                            "result-depends-on-print-target",
+                            "solve #{} after {:?}: {:?} obj {:e} iters {} vs reference {:?} {:e} {}",
+                            k,
+                            &ops[..i],
+                            solver.solution.status,
+                            solver.solution.obj_val,
+                            solver.solution.iterations,
+                            status,
+                            f64::from_bits(*obj),
+                            iters
+                        );
+                        if verbose {
+                            match &mut cur {
+                                Cur::Sink => {}
+                                Cur::Buffer(e) => e.extend_from_slice(log),
+                                Cur::Stream(j) => streams[*j].1.extend_from_slice(log),
+                                Cur::File(j) => files[*j].1.extend_from_slice(log),
+                            }
+                        }
+                    }
+                }
+                // every store that exists, after every operation
+                let hist = &ops[..=i];
+                match &cur {
+                    Cur::Buffer(e) => match solver.get_print_buffer() {
+                        Ok(s) => ensure!(mask_time(s.as_bytes()) == mask_time(e), "buffer-content-differs-from-its-solves", "after {:?}: buffer holds\n{}\nexpected\n{}", hist, mask_time(s.as_bytes()), mask_time(e)),
+                        Err(e) => return Err(Violation::new("buffer-configured-but-not-retrievable", format!("after {:?}: {}", hist, e))),
+                    },
+                    _ => ensure!(solver.get_print_buffer().is_err(), "buffer-retrievable-when-not-configured", "after {:?}", hist),
+                }
+                for (j, (sh, e)) in streams.iter().enumerate() {
+                    let got = sh.lock().unwrap().clone();
+                    ensure!(mask_time(&got) == mask_time(e), "stream-content-differs-from-its-solves", "after {:?}: stream #{} holds {} bytes, expected {}:\n{}", hist, j, got.len(), e.len(), mask_time(&got));
+                }
+                for (j, (rd, e)) in files.iter_mut().enumerate() {
+                    rd.seek(SeekFrom::Start(0)).unwrap();
+                    let mut got = vec![];
+                    rd.read_to_end(&mut got).unwrap();
+                    ensure!(mask_time(&got) == mask_time(e), "file-content-differs-from-its-solves", "after {:?}: file #{} holds {} bytes, expected {}:\n{}", hist, j, got.len(), e.len(), mask_time(&got));
+                }
+            }
+            Ok(())
+        });
+        ctx.transitions += ops.len() as u64;
+        match res {
+            Err(e) => return Err(Violation::new("panic-in-target-history", e)),
+            Ok(r) => r?,
+        }
+        if nsolves > 0 {
+            ctx.nontrivial += 1;
+        }
+        let same = refs.windows(2).all(|w| mask_time(&w[0].0) == mask_time(&w[1].0));
+        ctx.outcome(&format!("solves={} re-solve-logs-{}", nsolves, if nsolves < 2 { "n/a" } else if same { "identical" } else { "differ" }));
+        Ok(())
+    }
+}
+
 /// child mode: solve one case with the default print target (stdout) and verbose on
 pub fn child(space_name: &str, id: u64) -> i32 {
     // the tier is inherited from the parent through the environment: spaces of the two tiers can share a name
@@ -485,5 +669,15 @@ pub fn spaces(tier: &str, _seed: u64) -> Vec<Box<dyn Space>> {
     // statuses that only faults can produce on demand (NumericalError, roll-backs, strategy switches)
     let (k, d) = if tier == "thorough" { (6, 3) } else { (4, 2) };
     v.push(Box::new(super::faults::Schedules::new(k, d, super::faults::FJudge::C20)));
+    // the print target as an object with a history
+    {
+        use ConeSpec::*;
+        let s0 = vec![SettingsSpec::default()];
+        let len = if tier == "thorough" { 7 } else { 5 };
+        let (p, ss) = Planted::new(vec![NN(3), SOC(3)], 3, s0.clone(), Judge::C04, 0, vec![5], "default").case_of(0);
+        v.push(Box::new(TargetHistories { p, ss, len, label: "NN3-SOC3".into() }));
+        let (p, ss) = Planted::new(vec![Zero(1), NN(2), Exp], 3, s0, Judge::C04, 0, vec![5], "default").with_inf_rows().case_of(0);
+        v.push(Box::new(TargetHistories { p, ss, len: len - 1, label: "Z1-NN2-Exp-infrows".into() }));
+    }
     v
 }
